@@ -121,6 +121,20 @@ def configs(tier, seed):
                      '--omp-schedule', sched] + (
                     ['--cache-nnps'] if cache else [])
                 out.append((nm, a, t, 'bit', None))
+    # every neighbour algorithm is also queried from several threads at once
+    tl = [2, 3, 4, 5, 7, 8, 16]
+    for i, nn in enumerate(NNPS):
+        for cache in (False, True):
+            if quick and cache != bool((i + seed) % 2):
+                continue
+            t = tl[(i + seed + int(cache)) % len(tl)]
+            nm = 'sorted/%s/omp%d/%s/%s' % (
+                nn, t, 'dynamic,64', 'cache' if cache else 'nocache')
+            if any(c[0] == nm for c in out):
+                continue
+            out.append((nm, ['--nnps', nn, '--sort-gids', '--openmp',
+                             '--omp-schedule', 'dynamic,64'] + (
+                ['--cache-nnps'] if cache else []), t, 'bit', None))
     for i, nn in enumerate(NNPS):
         for cache in (False, True):
             if quick and cache != bool((i + seed + 1) % 2):
@@ -327,10 +341,19 @@ def run(tier):
                 'periodic' if pr == 'periodic' else 'single-array')
             # mechanism: the neighbour algorithm if it is not the
             # reference one, else the option that differs
-            mech = ('nnps=%s' % nn) if nn != 'll' else (
-                'openmp' if '/omp' in nm else (
-                    'reorder' if kind == 'reorder' else (
-                        'cache' if nm.endswith('/cache') else kind)))
+            serial = states.get('%s:sorted/%s/nocache' % (pr, nn))
+            if nn != 'll' and '/omp' in nm and serial is not None and \
+                    compare(serial, ref, bit=True) is None:
+                # the same algorithm agrees when run serially
+                mech = 'openmp:nnps=%s' % nn
+            elif nn != 'll':
+                mech = 'nnps=%s' % nn
+            elif '/omp' in nm:
+                mech = 'openmp'
+            elif kind == 'reorder':
+                mech = 'reorder'
+            else:
+                mech = 'cache' if nm.endswith('/cache') else kind
             v.violation('%s:%s' % (mech, multi),
                         '%s (%s, %d threads) vs reference run: array %s '
                         'property %s: %s' % (nm, info['nnps'],
